@@ -104,6 +104,10 @@ theorem heapPop_perm (s : St) (hne : s.arr.length ≠ 0) :
     (by simpa using hne)
   exact (h1.symm.trans h2.symm).trans h3
 
+/-- After `heap.Pop` the popped element's index is `-1` (its `remove` closure is dead). -/
+theorem heapPop_idx_elem (s : St) : (heapPop s).1.idx.getD (heapPop s).2.id (-1) = -1 := by
+  unfold heapPop; exact popLast_idx_elem _
+
 /-! ## `heap.Remove` -/
 
 theorem removePre_perm (s : St) (i : Nat) (hi : i < s.arr.length) :
